@@ -343,9 +343,12 @@ GOOD_NAMES = ["abc", "a-b.c", "_x1"]
 CHANNELS = ["bind::", "body::", "instance::", "choices-column", "attribute::", "namespaces-prefix"]
 
 
-def _channel_wb(ch: int, K: str, V: str):
+def _channel_wb(ch: int, K: str, V: str, dup: bool = False):
     q = {"type": "select_one l1", "name": "q1", "label": "L"}
     wb = {"survey": [q], "choices": [{"list_name": "l1", "name": "a", "label": "A"}]}
+    st = {}
+    if dup:  # settings that switch validation paths are part of the input space
+        st["allow_choice_duplicates"] = "yes"
     if ch == 0:
         q["bind::" + K] = V
     elif ch == 1:
@@ -355,58 +358,81 @@ def _channel_wb(ch: int, K: str, V: str):
     elif ch == 3:
         wb["choices"][0][K] = V
     elif ch == 4:
-        wb["settings"] = [{"attribute::" + K: V}]
+        st["attribute::" + K] = V
     else:
-        wb["settings"] = [{"namespaces": K + '="http://e/' + V + '"'}]
+        st["namespaces"] = K + '="http://e/' + V + '"'
+    if st:
+        wb["settings"] = [st]
     return wb
 
 
-def c01_channels(ch: int, bad: bool, ki: int, v0: int, v1: int) -> bool:
+def c01_channels(ch: int, ki: int, dup: bool, v0: int, v1: int) -> bool:
     """
     vpre: 0 <= ki <= 2
     vpre: 97 <= v0 <= 122 and 97 <= v1 <= 122
     vpost: _ == True
     """
-    K = (BAD_NAMES + BAD_NAMES)[ki] if bad else GOOD_NAMES[ki]
     try:
-        survey, _w, _js = build_survey(_channel_wb(ch, K, S(v0, v1)))
+        survey, _w, _js = build_survey(_channel_wb(ch, GOOD_NAMES[ki], S(v0, v1), dup))
+        survey.validate()
         root = survey.xml()
     except PyXFormError:
         return True
     return names_violation(root) is None
 
 
+def c01_bad_channel(ch: int, ki: int, dup: bool, v0: int, v1: int) -> bool:
+    """
+    vpre: 97 <= v0 <= 122 and 97 <= v1 <= 122
+    vpost: _ == True
+    """
+    try:
+        survey, _w, _js = build_survey(_channel_wb(ch, BAD_NAMES[ki], S(v0, v1), dup))
+        survey.validate()
+        root = survey.xml()
+    except PyXFormError:
+        return True
+    return names_violation(root) is None
+
+
+# F2 is identified by the (channel, header-name) pairs that reach an XML name position on the
+# pinned tree; any other pair failing is a new violation, not the known finding.
+F2_PAIRS = {(c, k) for c in range(6) for k in range(4)} - {(3, 1), (5, 1)}  # measured on the pinned tree: all but the two space-separated cases that the sheet readers drop
+
+
 def _classify_channels(call, replay):
-    return "F2"
+    return "F2"  # attached only to the obligations of the listed (channel, name) pairs
 
 
+_K_CH = ("pyxform.parsing.sheet_headers:process_header", "pyxform.parsing.sheet_headers:process_row", "pyxform.survey_element:SurveyElement.xml_bindings", "pyxform.question:Question._build_xml", "pyxform.question:Question.xml_instance", "pyxform.survey:Survey._generate_static_instances", "pyxform.survey:Survey.xml_instance", "pyxform.survey:Survey.get_nsmap", "pyxform.validators.pyxform.choices:validate_headers", "pyxform.validators.pyxform.choices:validate_and_clean_choices")
 specialise(
     "C01",
     "e.name-channels",
     c01_channels,
-    {"ch": [0, 1, 2, 3, 4, 5], "bad": [False]},
+    {"ch": [0, 1, 2, 3, 4, 5]},
     timeout=300,
-    kernel=("pyxform.parsing.sheet_headers:process_header", "pyxform.parsing.sheet_headers:process_row", "pyxform.survey_element:SurveyElement.xml_bindings", "pyxform.question:Question._build_xml", "pyxform.question:Question.xml_instance", "pyxform.survey:Survey._generate_static_instances", "pyxform.survey:Survey.xml_instance", "pyxform.survey:Survey.get_nsmap", "pyxform.validators.pyxform.choices:validate_headers"),
+    kernel=_K_CH,
     shims=("S1", "S2", "S3", "S4"),
-    symbolic="header-derived name chosen by a symbolic index from 3 valid XML names (header text is a dict key: concrete), cell value of 2 symbolic letters",
+    symbolic="header-derived name chosen by a symbolic index from 3 valid XML names (header text is a dict key: concrete), allow_choice_duplicates setting present or not (boolean), cell value of 2 symbolic letters",
     bounds="channel fixed per instance: bind::K, body::K, instance::K, choices extra column K, settings attribute::K, namespaces prefix K",
     weight=40,
 )
-specialise(
-    "C01",
-    "e.name-channels-unvalidated",
-    c01_channels,
-    {"ch": [0, 1, 2, 3, 4, 5], "bad": [True]},
-    timeout=300,
-    kernel=("pyxform.parsing.sheet_headers:process_header", "pyxform.survey_element:SurveyElement.xml_bindings", "pyxform.question:Question._build_xml", "pyxform.survey:Survey.xml_instance"),
-    shims=("S1", "S2", "S3", "S4"),
-    symbolic="header-derived name chosen by a symbolic index from names that are not XML names ('a<b', 'a b', '1x'), cell value of 2 symbolic letters",
-    bounds="channel fixed per instance; expected to reproduce known finding F2 (header text reaches XML name positions unvalidated)",
-    weight=30,
-    expect="known",
-    reach=False,
-    classifier=_classify_channels,
-)
+for _ch in range(6):
+    for _ki in range(len(BAD_NAMES)):
+        _known = (_ch, _ki) in F2_PAIRS
+        specialise(
+            "C01",
+            "e.name-channels-unvalidated" if _known else "e.name-channels-rejected",
+            c01_bad_channel,
+            {"ch": [_ch], "ki": [_ki]},
+            timeout=300,
+            kernel=_K_CH,
+            shims=("S1", "S2", "S3", "S4"),
+            symbolic="allow_choice_duplicates setting present or not (boolean), cell value of 2 symbolic letters",
+            bounds=f"channel {CHANNELS[_ch]} with the header-derived name {BAD_NAMES[_ki]!r} (not an XML name), fixed per instance" + ("; expected to reproduce known finding F2 (this header text reaches an XML name position unvalidated)" if _known else "; the name must be dropped or refused"),
+            weight=20,
+            **({"expect": "known", "reach": False, "classifier": _classify_channels} if _known else {"reach": False}),
+        )
 
 
 def c01_prefix(where: int, p0: int, p1: int) -> bool:
